@@ -1,6 +1,6 @@
 (* C02 - no lint fails internally on any input the parser accepts.  Statements only
    (proofs: Framework/FatalFacts.v, Kernels/Walkers.v, Kernels/BodiesFacts.v). *)
-From ZL Require Import Base.Bytes Framework.Core Framework.LifecycleFacts Framework.FatalFacts Kernels.Walkers Kernels.Bodies Kernels.BodiesFacts Kernels.Crl.
+From ZL Require Import Base.Bytes Framework.Core Framework.LifecycleFacts Framework.FatalFacts Kernels.Walkers Kernels.Bodies Kernels.BodiesFacts Kernels.Crl Kernels.QcStatem.
 Open Scope Z_scope.
 
 (* a fatal status is an explicit decision of the body, a configuration error, or a recovered panic *)
@@ -85,6 +85,19 @@ Theorem c02_crl_entry_order : forall v es', Permutation.Permutation (cv_entries 
   firstn 7 (all_crl_lints (with_entries v es')) = firstn 7 (all_crl_lints v).
 Proof. exact crl_lints_entry_order. Qed.
 
+(* the six ETSI lints that assert the dynamic type of util.ParseQcStatem's result without the comma-ok form do so
+   only when the statement is present and carries no error text: then the result has the sought statement's type
+   (model Kernels.QcStatem; the ASN.1 decoder is an oracle) *)
+Theorem c02_qc_assert_safe : forall outer sought,
+  sought <> KOther -> r_present (parse_qc outer sought) = true -> r_noerr (parse_qc outer sought) = true ->
+  r_dyn (parse_qc outer sought) = Some sought.
+Proof. exact parse_qc_typed. Qed.
+
+(* and the error-text test is what makes it so *)
+Theorem c02_qc_guard_needed :
+  let r := parse_qc (Some [IStmt KType false]) KType in r_present r = true /\ r_dyn r = None.
+Proof. exact guard_needed. Qed.
+
 Print Assumptions c02_fatal_origin.
 Print Assumptions c02_framework.
 Print Assumptions c02_plain.
@@ -104,3 +117,5 @@ Example c02_gentime_example :
   gen_seconds (24, s2b "202403010000Z") (23, s2b "240301000000Z") = Val 6 /\
   gen_not_zulu (24, s2b "20240301000000+0100") (23, s2b "240301000000Z") = Val 6.
 Proof. repeat split; try reflexivity. intros _. vm_compute. discriminate. Qed.
+Print Assumptions c02_qc_assert_safe.
+Print Assumptions c02_qc_guard_needed.
